@@ -55,6 +55,9 @@ def _programs(tier):
                                       {'reg': [], 'ret': None}]}
     progs['twokeys_call'] = {'steps': [{'reg': [['k', 0, 'fut', 'call'], ['again', 0, 'fut', 'call'], ['c', 1, 'child', 'call'], ['c2', 1, 'oldchild', 'ret']], 'ret': None},
                                        {'reg': [], 'ret': None}]}
+    # everything is registered with to_context(), and the step returns an (empty) context assignment as well
+    progs['call_and_empty_ret'] = {'steps': [{'reg': [['k', 0, 'fut', 'call'], ['c', 1, 'child', 'call']], 'ret': None, 'empty_tc': True}, {'reg': [], 'ret': None},
+                                             {'reg': [['k2', 2, 'fut', 'call']], 'ret': None, 'empty_tc': True}, {'reg': [], 'ret': 'end'}]}
     progs['samekey'] = {'steps': [{'reg': [['k', 0, 'fut', 'call'], ['k', 1, 'fut', 'ret']], 'ret': None}, {'reg': [], 'ret': None}]}
     return progs
 
